@@ -28,6 +28,8 @@ type smtPrinter struct {
 	vars      map[string]*Term
 	usesDiv   bool
 	pbTags    map[string]bool
+	carr      strings.Builder
+	carrDone  map[int]bool
 }
 
 type shapeInfo struct {
@@ -40,7 +42,7 @@ type shapeInfo struct {
 func smtName(s string) string {
 	ok := true
 	for _, c := range s {
-		if !(c >= 'a' && c <= 'z' || c >= 'A' && c <= 'Z' || c >= '0' && c <= '9' || c == '_' || c == '.' || c == '!' || c == '$' || c == '#' || c == '~' || c == '@') {
+		if !(c >= 'a' && c <= 'z' || c >= 'A' && c <= 'Z' || c >= '0' && c <= '9' || c == '_' || c == '.' || c == '!' || c == '$' || c == '~' || c == '@') {
 			ok = false
 		}
 	}
@@ -142,7 +144,17 @@ func (p *smtPrinter) term(t *Term) string {
 		sb.WriteByte(')')
 		return sb.String()
 	case "constarr":
-		return "((as const " + t.Sort.Name + ") " + p.term(t.Args[0]) + ")"
+		v := t.Args[0]
+		if v.Op == "int" || v.Op == "true" || v.Op == "false" {
+			return "((as const " + t.Sort.Name + ") " + p.term(v) + ")"
+		}
+		// cvc5 only accepts values in constant arrays: use a named array constrained by an axiom
+		n := fmt.Sprintf("carr_%d", t.id)
+		if !p.carrDone[t.id] {
+			p.carrDone[t.id] = true
+			fmt.Fprintf(&p.defs, "(declare-const %s %s)\n(assert (forall ((i %s)) (! (= (select %s i) %s) :pattern ((select %s i)))))\n", n, t.Sort.Name, t.Sort.Index.Name, n, p.term(v), n)
+		}
+		return n
 	case "cons":
 		if len(t.Args) == 0 {
 			return smtName(t.Str)
@@ -155,9 +167,21 @@ func (p *smtPrinter) term(t *Term) string {
 		}
 		sb.WriteString(") ")
 		body := p.term(t.Args[0])
-		if len(t.Pats) > 0 {
+		var pats [][]*Term
+		for _, pat := range t.Pats {
+			ok := true
+			for _, x := range pat {
+				if !validPattern(x) {
+					ok = false
+				}
+			}
+			if ok {
+				pats = append(pats, pat)
+			}
+		}
+		if len(pats) > 0 {
 			sb.WriteString("(! " + body)
-			for _, pat := range t.Pats {
+			for _, pat := range pats {
 				sb.WriteString(" :pattern (")
 				for i, x := range pat {
 					if i > 0 {
@@ -200,6 +224,28 @@ func (p *smtPrinter) term(t *Term) string {
 	}
 	sb.WriteByte(')')
 	return sb.String()
+}
+
+func validPattern(t *Term) bool {
+	switch t.Op {
+	case "var", "bvar", "int", "lit":
+		return true
+	case "uf", "select", "sel", "cons", "cat", "be8", "be4", "b1", "tm", "pb", "store":
+		for _, a := range t.Args {
+			if !validPattern(a) {
+				return false
+			}
+		}
+		return t.hasBV
+	case "+", "-":
+		for _, a := range t.Args {
+			if !validPattern(a) {
+				return false
+			}
+		}
+		return true
+	}
+	return false
 }
 
 // nameShared introduces define-funs for shared closed subterms, in dependency order.
@@ -246,7 +292,7 @@ func dtDeps(s *Sort, out map[string]bool) {
 
 func (q *Query) SMT(withModel bool) string {
 	p := &smtPrinter{named: map[int]string{}, refs: map[int]int{}, shapes: map[string]*shapeInfo{}, lits: map[string]string{},
-		sorts: map[string]*Sort{}, ufs: map[string]bool{}, vars: map[string]*Term{}, pbTags: map[string]bool{}}
+		sorts: map[string]*Sort{}, ufs: map[string]bool{}, vars: map[string]*Term{}, pbTags: map[string]bool{}, carrDone: map[int]bool{}}
 	roots := append([]*Term{}, q.Assumes...)
 	if q.Goal != nil {
 		roots = append(roots, Not(q.Goal))
@@ -372,6 +418,12 @@ func (q *Query) SMT(withModel bool) string {
 			out.WriteString(" " + p.lits[l])
 		}
 		out.WriteString("))\n")
+	}
+	if p.ufs["dec_be8"] {
+		out.WriteString("(assert (forall ((b Bytes)) (! (and (<= 0 (dec_be8 b)) (<= (dec_be8 b) 18446744073709551615)) :pattern ((dec_be8 b)))))\n")
+	}
+	if p.ufs["dec_be4"] {
+		out.WriteString("(assert (forall ((b Bytes)) (! (and (<= 0 (dec_be4 b)) (<= (dec_be4 b) 4294967295)) :pattern ((dec_be4 b)))))\n")
 	}
 	out.WriteString("(assert (= (blen bnil) 0))\n")
 	out.WriteString("(assert (forall ((b Bytes)) (! (>= (blen b) 0) :pattern ((blen b)))))\n")
@@ -524,10 +576,13 @@ func (q *Query) SMT(withModel bool) string {
 		}
 	}
 	p.nameShared(roots)
-	out.WriteString(p.defs.String())
+	var asserts strings.Builder
 	for _, r := range roots {
-		out.WriteString("(assert " + p.term(r) + ")\n")
+		asserts.WriteString("(assert " + p.term(r) + ")\n")
 	}
+	out.WriteString(p.defs.String())
+	out.WriteString(p.carr.String())
+	out.WriteString(asserts.String())
 	out.WriteString("(check-sat)\n")
 	if withModel {
 		out.WriteString("(get-model)\n")
